@@ -400,10 +400,14 @@ def check_state_script(steps, res, exp):
             if got != want:
                 return "call %d (%s) returned %s, expected %s" % (i, a, got, want)
         elif a in ("size", "iterkeysize"):
+            if r[0] == "any":
+                continue
             want = -1 if r[0] == "max" else r[0]
             if got != want:
                 return "call %d (%s) returned %s, expected %s" % (i, a, got, want)
         elif a in ("readn", "iterkeyread"):
+            if r[0] == "any":
+                continue
             want = -1 if r[0] == "max" else r[1]
             if got != want:
                 return "call %d (%s) returned %s, expected %s" % (i, a, got, want)
